@@ -13,6 +13,35 @@ from harness.lib import oracle as O, impl as I, rules as R
 
 PROPERTY = 'C10'
 
+import sys as _sys, os as _os
+_sys.path.insert(0, _os.path.join(_os.path.dirname(_os.path.dirname(_os.path.abspath(__file__))), 'translate'))
+import expasy as _ex
+
+CUSTOM_EXC = [r'K(?=E)', r'(?<=A)R', r'[KR](?=[DE])', r'(?<=[ST])K', r'(K(?=G))|((?<=P)R)', r'\w(?=W)',
+              r'(?<=GG)[KR]', r'R(?=[^A])', r'(?<=M)[KR](?=\w)']
+
+def exc_arg(e):
+    """oracle encoding of an exception: None, a table name, or a raw regex in the translated fragment"""
+    if isinstance(e, dict):
+        alts = []
+        for a in _ex.alternatives(e['regex']):
+            b, c, f = _ex.parse_site_alt(a)
+            enc = lambda x: ([2] if x[0] == 'word' else [0 if x[0] == 'in' else 1, list(x[1])])
+            alts.append([[enc(x) for x in b], enc(c), [enc(x) for x in f]])
+        return [-1, alts]
+    return e
+
+def exc_impl(e):
+    return e['regex'] if isinstance(e, dict) else e
+
+def pick_exc(rng, rule):
+    x = rng.random()
+    if x < 0.12:
+        return {'regex': rng.choice(CUSTOM_EXC)}
+    if rule == 'trypsin' and x < 0.65:
+        return 'trypsin_exception'
+    return None
+
 def lim_of(rng, half=True):
     k = rng.choice([0, 1, 2, 2, 3])
     minlen = rng.choice([1, 5, 7, 7, 9])
@@ -32,8 +61,10 @@ def gen_cases(ctx):
     cases = []
     for i in range(n_sites):
         rule = names[i % len(names)]
-        exc = 'trypsin_exception' if (rule == 'trypsin' and rng.random() < 0.6) else None
+        exc = pick_exc(rng, rule)
         s = R.gen_protein(rng, rule, rng.randint(0, 60), extra='UX*')
+        if isinstance(exc, dict):
+            s = ''.join(rng.choice('KREADGSTPMW') if rng.random() < 0.5 else ch for ch in s)
         cases.append(dict(kind='sites', rule=rule, exc=exc, seq=s))
     for i in range(n_sites // 2):
         rule = names[i % len(names)]
@@ -54,8 +85,10 @@ def gen_cases(ctx):
         cases.append(dict(kind='aux', rule=rule, exc=exc, seq=s, given=given, start=rng.randint(0, len(s))))
     for i in range(n_cleave):
         rule = names[i % len(names)] if rng.random() < 0.6 else 'trypsin'
-        exc = 'trypsin_exception' if (rule == 'trypsin' and rng.random() < 0.6) else None
+        exc = pick_exc(rng, rule)
         s = R.gen_protein(rng, rule, rng.randint(1, 120), extra='UX')
+        if isinstance(exc, dict):
+            s = ''.join(rng.choice('KREADGSTPMW') if rng.random() < 0.4 else ch for ch in s)
         if rng.random() < 0.5:
             s = 'M' + s
         c = dict(kind='cleave', rule=rule, exc=exc, seq=s, nf=rng.random() < 0.3)
@@ -63,7 +96,7 @@ def gen_cases(ctx):
         cases.append(c)
     for i in range(n_pool):
         rule = names[i % len(names)] if rng.random() < 0.5 else 'trypsin'
-        exc = 'trypsin_exception' if (rule == 'trypsin' and rng.random() < 0.6) else None
+        exc = pick_exc(rng, rule)
         prots = []
         for _ in range(rng.randint(1, 12)):
             s = R.gen_protein(rng, rule, rng.randint(5, 200), extra='UX')
@@ -101,7 +134,12 @@ def gen_cases(ctx):
             if all((q['rule'], q['exc'], q['k'], q['min_len'], q['max_len'], q['min_mw']) !=
                    (ps['rule'], ps['exc'], ps['k'], ps['min_len'], ps['max_len'], ps['min_mw']) for q in params):
                 params.append(ps)
-        cases.append(dict(kind='pool_cli', world=world, params=params))
+        # proteome entries whose transcript is NOT in the GTF (digested by every path with cds_start_NF unknown = False)
+        extra = []
+        for j in range(rng.choice([0, 1, 2])):
+            sq = 'M' + R.gen_protein(rng, 'trypsin', rng.randint(15, 80))
+            extra.append(['ENSP9%010d.1' % (i * 10 + j), 'ENST9%010d.1' % (i * 10 + j), 'ENSG9%010d.1' % (i * 10 + j), sq])
+        cases.append(dict(kind='pool_cli', world=world, params=params, extra_prots=extra))
     # exhaustive short strings over the rule's own letters (+ one neutral letter)
     maxlen = 3 if ctx.quick else 5
     for rule in names:
@@ -135,14 +173,14 @@ def world_proteins(world):
 
 def oracle_req(c):
     if c['kind'] == 'pool_cli':
-        prots = world_proteins(c['world'])
+        prots = world_proteins(c['world']) + [[e[3], False] for e in c.get('extra_prots', [])]
         reqs = []
         for ps in c['params']:
             mw4 = int(round((ps['min_mw'] - 0.00005) * 10000))
             reqs.append([ps['rule'], resolved_exc(ps), [ps['k'], mw4, ps['min_len'], ps['max_len']], prots])
         return ('pool_multi', reqs)
     if c['kind'] == 'sites':
-        return ('sites', [c['rule'], c['exc'], c['seq']])
+        return ('sites', [c['rule'], exc_arg(c['exc']), c['seq']])
     if c['kind'] == 'sites_range':
         return ('sites_range', [c['rule'], c['exc'], c['seq']])
     if c['kind'] == 'aux':
@@ -151,9 +189,9 @@ def oracle_req(c):
         return ('c10_aux', [a, [c['rule'], c['exc'], c['start'], c['seq']], [c['exc'], c['seq']]])
     lim = [c['k'], c['mw4'], c['min_len'], c['max_len']]
     if c['kind'] == 'cleave':
-        return ('cleave', [c['rule'], c['exc'], lim, c['nf'], c['seq']])
+        return ('cleave', [c['rule'], exc_arg(c['exc']), lim, c['nf'], c['seq']])
     if c['kind'] == 'pool':
-        return ('pool', [c['rule'], c['exc'], lim, [[s, (nf and known)] for s, nf, known in c['prots']]])
+        return ('pool', [c['rule'], exc_arg(c['exc']), lim, [[s, (nf and known)] for s, nf, known in c['prots']]])
 
 def canon_model(c, m):
     if c['kind'] == 'sites':
